@@ -32,6 +32,7 @@ type Batch struct {
 	Knobs    map[string]string
 	Env      []string
 	Race     bool
+	Bin      string // worker binary (default "worker")
 	Timeout  time.Duration
 	// XSeedK is the number of different hash seeds each program runs under (Kind xseed).
 	XSeedK [2]int
@@ -178,6 +179,9 @@ type laneSpec struct {
 }
 
 func workerBin(b *Batch) string {
+	if b.Bin != "" {
+		return filepath.Join(binDir, b.Bin)
+	}
 	if b.Race {
 		return filepath.Join(binDir, "worker-race")
 	}
@@ -465,7 +469,7 @@ func writeReplay(p *Prop, b *Batch, r *Result, verifSeed uint64, tier string) st
 	path := filepath.Join(dir, name)
 	doc := map[string]any{
 		"property": p.ID, "engine": r.Engine, "batch": b.Name, "kind": b.Kind, "tier": tier, "verif_seed": verifSeed, "run_seed": r.Seed,
-		"hash_seed": r.HashSeed, "knobs": b.Knobs, "env": b.Env, "race": b.Race, "tape": r.Tape, "signature": r.V.Sig, "oracle": r.V.Oracle,
+		"hash_seed": r.HashSeed, "knobs": b.Knobs, "env": b.Env, "race": b.Race, "bin": b.Bin, "tape": r.Tape, "signature": r.V.Sig, "oracle": r.V.Oracle,
 		"message": r.V.Msg, "trace": r.Trace, "log": r.Log, "crashed": r.Crashed, "out": r.Out,
 	}
 	bs, _ := json.MarshalIndent(doc, "", " ")
@@ -506,6 +510,7 @@ func doReplay(path string) int {
 		Knobs     map[string]string `json:"knobs"`
 		Env       []string          `json:"env"`
 		Race      bool              `json:"race"`
+		Bin       string            `json:"bin"`
 		Tape      []uint64          `json:"tape"`
 		Signature string            `json:"signature"`
 		Trace     string            `json:"trace"`
@@ -526,7 +531,7 @@ func doReplay(path string) int {
 	if doc.Kind == "race" {
 		return replayRace(p, path, doc.Engine, doc.Knobs, doc.Env, doc.Tape, doc.RunSeed, doc.Signature)
 	}
-	b := &Batch{Name: doc.Batch, Engine: doc.Engine, Knobs: doc.Knobs, Env: doc.Env, Race: doc.Race}
+	b := &Batch{Name: doc.Batch, Engine: doc.Engine, Knobs: doc.Knobs, Env: doc.Env, Race: doc.Race, Bin: doc.Bin}
 	w := newWorker(workerBin(b), doc.HashSeed, doc.Env, 300*time.Second)
 	r := w.Do(Request{ID: 1, Engine: doc.Engine, Seed: doc.RunSeed, Tape: doc.Tape, Replay: true, Knobs: doc.Knobs, Verbose: true})
 	w.stop()
